@@ -23,6 +23,7 @@ func init() {
 			"R6 after every builder call the function returns only across the matching boundRequestTo*/…EntryLifetime call, the builder's failure edge, an aborted lease or the wire-fallback edge; boundRequestToEntryLifetime folds min(stored+ttl, cutUntil); " +
 			"R7 ResponseMeta.cut is written only by BoundCutFor (behind zero/earlier), Reset, detachedCopy; BoundCutFor's callers are the listed feeders; WriteMsg cannot reach additionalAnswer after reading Cut(); " +
 			"R8 processPrefetch touches the cache only through prefetchExchange/ReplaceIfCurrent/RecordDenialProof/RecordNXDomainCut, the records only behind ReplaceIfCurrent=true; ReplaceIfCurrent writes only via CompareAndSwap(key, expected, …); the prefetch queryer is built from SubPipeline(skip + the cache handler's own name); " +
+			"R10 after every Cache.internalExchange, wherever the sub-response is transferred into the outer message (a call receiving both, or a sub-response-dependent store into the outer message) every path to a return crosses subQueryLineage.inherit (directly or through a helper that always calls it); R4 additionally: each CalculateCacheTTL candidate is applied for every response type that reaches the fold (path feasibility under respType = TypeSuccess / TypeNXDomain / TypeNoRecords; SOA.Minttl for the negative ones); min-folds are decided shape-independently (phi, loop accumulator, early returns, several consumer calls, lowering helpers, builtin min); " +
 			"R9 MinCacheTTL=5s, MaxCacheTTL=24h feed NewPositiveCache in cache.New; TTLManager.Calculate and the tail of CalculateCacheTTL return min/max only behind the comparison that makes them a clamp.",
 		NotDecided: []string{
 			"the numeric result of CalculateCacheTTL (minimum over records/RRSIG expirations) for all messages",
@@ -64,6 +65,43 @@ func runC04(c *Ctx) {
 	nxRemaining := c04TimeSub(FieldIs(nxExpires), Any)
 	// live edges
 	liveEntry := []Barrier{OnCmp("remaining>0", isRemaining, token.GTR, IsConstInt(0), true)}
+	// bool helpers of CacheEntry whose outcome establishes liveness: every
+	// return of the helper that yields `want` is behind remaining > 0 inside the
+	// helper, or the helper returns the comparison itself
+	for _, h := range c.P.FuncsInPkg(cp) {
+		fo := funcObjOf(h)
+		if h.Parent() != nil || fo == nil || !methodOn(fo, "CacheEntry") || h.Signature.Results().Len() != 1 {
+			continue
+		}
+		if b, ok := h.Signature.Results().At(0).Type().Underlying().(*types.Basic); !ok || b.Kind() != types.Bool {
+			continue
+		}
+		for _, want := range []bool{true, false} {
+			okAll, n := true, 0
+			for _, in := range returnsWhere(h, 0, nil) {
+				n++
+				e := strip(Desc(in.(*ssa.Return).Results[0]))
+				switch {
+				case IsConstBool(!want)(e):
+				case IsConstBool(want)(e):
+					if ug, _ := c.unguarded(in, liveEntry[:1], h); ug {
+						okAll = false
+					}
+				default:
+					if m, pol := CmpMatch(e, isRemaining, token.GTR, IsConstInt(0)); !m || pol != want {
+						okAll = false
+					}
+				}
+			}
+			if okAll && n > 0 {
+				if want {
+					liveEntry = append(liveEntry, OnTrue(fo.Name()+"()", CallTo(fo)))
+				} else {
+					liveEntry = append(liveEntry, OnFalse(fo.Name()+"()", CallTo(fo)))
+				}
+			}
+		}
+	}
 	liveCut := []Barrier{
 		OnCmp("expires-now>0", nxRemaining, token.GTR, IsConstInt(0), true),
 		OnTrue("now.Before(expires)", c08TimeMethod("Before", Any, FieldIs(nxExpires))),
@@ -285,35 +323,30 @@ func runC04(c *Ctx) {
 		return e != nil && e.K == ECall && e.Fn != nil && e.Fn.Name() == "IsZero" && len(e.Args) == 1 && FieldIs(fCutUntil)(e.Args[0])
 	})
 	if rf := c.fn("C04-R3", cp+".(*CacheEntry).remaining"); rf != nil {
-		for _, in := range returnsWhere(rf, 0, nil) {
-			v := in.(*ssa.Return).Results[0]
-			ls := c08Leaves(v)
-			hasTTL, hasCut := false, false
-			var other []string
-			for _, l := range ls {
-				ll := strip(l)
-				switch {
-				case ll.K == EBin && ll.Op == token.SUB && FieldIs(fTTL)(ll.X) && c04TimeSub(Any, FieldIs(fStored))(ll.Y):
-					hasTTL = true
-				case c04TimeSub(FieldIs(fCutUntil), Any)(ll):
-					hasCut = true
-				default:
-					other = append(other, trunc(ll.String(), 100))
-				}
+		// all returns together (one return of a phi, or early returns): the value
+		// handed out is min(ttl-elapsed, cutUntil-now); the cut may be left out
+		// only where cutUntil.IsZero()
+		sinks := c08ReturnSinks(rf, 0, nil)
+		terms := c.c08Fold("C04-R3", "C04-R3|CacheEntry.remaining|minimum, cut skipped only when zero", "remaining", sinks, c08FoldOpt{Skip: []Barrier{isZeroCut}})
+		ls := c08TermExprs(terms)
+		hasTTL, hasCut := false, false
+		var other []string
+		for _, l := range ls {
+			ll := strip(l)
+			switch {
+			case ll.K == EBin && ll.Op == token.SUB && FieldIs(fTTL)(ll.X) && c04TimeSub(Any, FieldIs(fStored))(ll.Y):
+				hasTTL = true
+			case c04TimeSub(FieldIs(fCutUntil), Any)(ll):
+				hasCut = true
+			default:
+				other = append(other, trunc(ll.String(), 100))
 			}
-			key := "C04-R3|CacheEntry.remaining|folds ttl-elapsed and cutUntil-now"
-			if hasTTL && hasCut && len(other) == 0 {
-				c.ok("C04-R3", key, instrPos(in), "remaining ∈ {"+c08ExprList(ls)+"}")
-			} else {
-				c.violation("C04-R3", key, instrPos(in), fmt.Sprintf("remaining does not fold exactly {ttl-elapsed, cutUntil-now} (ttl=%v cut=%v other=%v): an answer can outlive its delegation cut", hasTTL, hasCut, other))
-			}
-			if phi, ok := v.(*ssa.Phi); ok {
-				c.c08MinFoldPhi("C04-R3", "C04-R3|CacheEntry.remaining|minimum, cut skipped only when zero", phi, "remaining", isZeroCut)
-			} else if se := strip(Desc(v)); se != nil && se.K == ECall && se.Method == "builtin.min" {
-				c.ok("C04-R3", "C04-R3|CacheEntry.remaining|minimum, cut skipped only when zero", instrPos(in), "min(...) builtin")
-			} else {
-				c.undecided("C04-R3", "C04-R3|CacheEntry.remaining|minimum, cut skipped only when zero", instrPos(in), "return value is not a phi/min of alternatives")
-			}
+		}
+		key := "C04-R3|CacheEntry.remaining|folds ttl-elapsed and cutUntil-now"
+		if hasTTL && hasCut && len(other) == 0 {
+			c.ok("C04-R3", key, rf.Pos(), "remaining ∈ {"+c08ExprList(ls)+"}")
+		} else {
+			c.violation("C04-R3", key, rf.Pos(), fmt.Sprintf("remaining does not fold exactly {ttl-elapsed, cutUntil-now} (ttl=%v cut=%v other=%v): an answer can outlive its delegation cut", hasTTL, hasCut, other))
 		}
 	}
 	readers := map[string]string{
@@ -343,6 +376,7 @@ func runC04(c *Ctx) {
 
 	runC04Writers(c, isZeroCut)
 	runC04Lineage(c, isZeroCut)
+	runC04SubQueryLineage(c)
 }
 
 var _ = strings.Join
@@ -513,77 +547,116 @@ func runC04Writers(c *Ctx, isZeroCut Barrier) {
 			}
 		}
 	}
-	// CalculateCacheTTL
+	// CalculateCacheTTL: whatever leaves the function other than a constant is
+	// decided as a min-fold (loop accumulator, lowering helpers, early returns),
+	// and every required candidate must be applied for every response type that
+	// reaches the fold — decided by path feasibility under respType = T, not by
+	// looking for a particular local.
 	if f := c.fn("C04-R4", du+".CalculateCacheTTL"); f != nil {
-		n := 0
-		for _, in := range returnsWhere(f, 0, nil) {
-			v := in.(*ssa.Return).Results[0]
-			if _, ok := v.(*ssa.Phi); !ok {
-				continue
-			}
-			n++
-			cands := c.c08MinFoldAccum("C04-R4", "C04-R4|CalculateCacheTTL|min-fold", v, "minTTL", IsAnyConst)
+		sinks := c08ReturnSinks(f, 0, func(in ssa.Instruction) bool { return !IsAnyConst(Desc(in.(*ssa.Return).Results[0])) })
+		if len(sinks) == 0 {
+			c.unresolved("C04-R4", "CalculateCacheTTL", "no non-constant return found")
+		} else {
+			terms := c.c08Fold("C04-R4", "C04-R4|CalculateCacheTTL|min-fold", "minTTL", sinks, c08FoldOpt{})
 			type need struct {
-				what string
-				p    Pat
+				what     string
+				p        Pat
+				negative bool // applies to negative answers only
 			}
 			var needs []need
 			for _, sec := range []*types.Var{msgAnswer, msgNs, msgExtra} {
 				sec := sec
 				needs = append(needs,
-					need{"record TTL of " + sec.Name(), func(e *Expr) bool { return CallTo(getTTL)(e) && Contains(FieldIs(sec))(e) }},
-					need{"RRSIG expiry in " + sec.Name(), func(e *Expr) bool { return CallTo(getSigTTL)(e) && Contains(FieldIs(sec))(e) }})
+					need{"record TTL of " + sec.Name(), func(e *Expr) bool { return CallTo(getTTL)(e) && Contains(FieldIs(sec))(e) }, false},
+					need{"RRSIG expiry in " + sec.Name(), func(e *Expr) bool { return CallTo(getSigTTL)(e) && Contains(FieldIs(sec))(e) }, false})
 			}
-			needs = append(needs, need{"SOA minimum (negative answers)", func(e *Expr) bool { s, ok := c08SecondsOf(e); return ok && FieldIs(soaMin)(s) }})
-			for _, nd := range needs {
-				found := false
-				for _, cd := range cands {
-					if nd.p(strip(cd)) {
-						found = true
+			needs = append(needs, need{"SOA minimum (negative answers)", func(e *Expr) bool { s, ok := c08SecondsOf(e); return ok && FieldIs(soaMin)(s) }, true})
+			// response types whose TTL is computed by the fold
+			var respParam *ssa.Parameter
+			if len(f.Params) == 2 {
+				respParam = f.Params[1]
+			}
+			type rt struct {
+				name     string
+				negative bool
+			}
+			feas := map[string]*c04Feasible{}
+			var rts []rt
+			for _, t := range []rt{{"TypeSuccess", false}, {"TypeNXDomain", true}, {"TypeNoRecords", true}} {
+				cv := c.P.ConstVal(du + "." + t.name)
+				if cv == nil || respParam == nil {
+					c.unresolved("C04-R4", du+"."+t.name, "response type constant / respType parameter not found")
+					continue
+				}
+				fz := c04FeasibleUnder(f, respParam, cv)
+				reaches := false
+				for _, s := range sinks {
+					if fz.alt(s) {
+						reaches = true
 					}
 				}
+				if !reaches {
+					continue // this type is answered by a constant before the fold
+				}
+				feas[t.name] = fz
+				rts = append(rts, t)
+			}
+			if len(rts) == 0 {
+				c.unresolved("C04-R4", "CalculateCacheTTL|response types", "no response type reaches the fold")
+			}
+			for _, nd := range needs {
 				key := "C04-R4|CalculateCacheTTL|folds " + nd.what
-				if found {
-					c.ok("C04-R4", key, instrPos(in), nd.what+" is a candidate of the minimum")
-				} else {
-					c.violation("C04-R4", key, instrPos(in), nd.what+" is not folded into the cache TTL")
+				var missing []string
+				any := false
+				for _, tm := range terms {
+					if nd.p(strip(tm.E)) {
+						any = true
+					}
+				}
+				for _, t := range rts {
+					if nd.negative && !t.negative {
+						continue
+					}
+					ok := false
+					for _, tm := range terms {
+						if nd.p(strip(tm.E)) && feas[t.name].alt(tm.Loc) {
+							ok = true
+						}
+					}
+					if !ok {
+						missing = append(missing, t.name)
+					}
+				}
+				switch {
+				case !any:
+					c.violation("C04-R4", key, f.Pos(), nd.what+" is not folded into the cache TTL")
+				case len(missing) > 0:
+					c.violation("C04-R4", key, f.Pos(), fmt.Sprintf("%s is folded, but not for response type(s) %v: entries of that type outlive it", nd.what, missing))
+				default:
+					c.ok("C04-R4", key, f.Pos(), nd.what+" is a candidate of the minimum for every response type that reaches the fold")
 				}
 			}
-		}
-		if n == 0 {
-			c.unresolved("C04-R4", "CalculateCacheTTL", "no accumulator return found")
 		}
 	}
 	if f := c.fn("C04-R4", du+".getRRSIGTTL"); f != nil {
-		var vals []*Expr
-		var rets []ssa.Instruction
-		for _, in := range returnsWhere(f, 0, nil) {
-			e := strip(Desc(in.(*ssa.Return).Results[0]))
-			if IsAnyConst(e) {
-				continue
-			}
-			vals = append(vals, e)
-			rets = append(rets, in)
-		}
+		// non-constant results (the constant is the declared floor for an already expired signature)
+		sinks := c08ReturnSinks(f, 0, func(in ssa.Instruction) bool { return !IsAnyConst(Desc(in.(*ssa.Return).Results[0])) })
 		key := "C04-R4|getRRSIGTTL|smaller of record TTL and time to expiry"
-		if len(vals) != 2 || vals[0].String() == vals[1].String() {
-			c.undecided("C04-R4", key, f.Pos(), fmt.Sprintf("expected two alternative non-constant returns, found %d", len(vals)))
+		terms := c.c08Fold("C04-R4", key, "RRSIG-bounded TTL", sinks, c08FoldOpt{})
+		hasExp, hasTTL := false, false
+		for _, e := range c08TermExprs(terms) {
+			if c04TimeSub(Contains(FieldIs(sigExp)), Any)(strip(e)) {
+				hasExp = true
+			}
+			if s, ok := c08SecondsOf(e); ok && FieldIs(hdrTTL)(s) {
+				hasTTL = true
+			}
+		}
+		k2 := "C04-R4|getRRSIGTTL|alternatives are record TTL and time to expiration"
+		if hasExp && hasTTL {
+			c.ok("C04-R4", k2, f.Pos(), "both the record TTL and the time to RRSIG expiration are alternatives of the minimum")
 		} else {
-			hasExp := false
-			for i, in := range rets {
-				self, other := vals[i], vals[1-i]
-				if c04TimeSub(Contains(FieldIs(sigExp)), Any)(self) {
-					hasExp = true
-				}
-				if ug, tr := c.unguarded(in, c08LE(c08SameAs(self), c08SameAs(other)), f); ug {
-					c.violation("C04-R4", key, instrPos(in), "returns "+trunc(self.String(), 80)+" without establishing it is the smaller one; path "+tr)
-				} else {
-					c.ok("C04-R4", key, instrPos(in), "returns "+trunc(self.String(), 80)+" only where it is <= "+trunc(other.String(), 80))
-				}
-			}
-			if !hasExp {
-				c.violation("C04-R4", key, f.Pos(), "time to RRSIG expiration is not one of the alternatives")
-			}
+			c.violation("C04-R4", k2, f.Pos(), fmt.Sprintf("getRRSIGTTL does not choose between record TTL and time to expiration (ttl=%v expiration=%v)", hasTTL, hasExp))
 		}
 	}
 	c.Floor("C04-R4", 30)
@@ -627,60 +700,90 @@ func runC04Writers(c *Ctx, isZeroCut Barrier) {
 				cell = c04CellOf(u.X)
 			}
 		}
-		nowOK := cell != nil && (CallTo(timeNow)(ee.Args[0]) || isParam("now")(ee.Args[0]))
+		isAdd := CallTo(timeAdd)(ee) && len(ee.Args) == 2
+		nowOK := isAdd && (CallTo(timeNow)(ee.Args[0]) || isParam("now")(ee.Args[0]))
 		if !nowOK {
 			c.violation("C04-R5", kShape, instrPos(expInstr), "expiry is not now.Add(<ttl accumulator>): "+trunc(ee.String(), 160))
 			continue
 		}
 		c.ok("C04-R5", kShape, instrPos(expInstr), "expiry ← "+trunc(ee.String(), 120))
-		// stores to the accumulator
-		isCellStore := func(in ssa.Instruction) bool {
-			st, ok := in.(*ssa.Store)
-			return ok && c04CellOf(st.Addr) == cell
-		}
-		var boundFn *ssa.Function
 		kFold := fmt.Sprintf("C04-R5|%s|ttl only lowered", name)
-		for _, in := range instrsWhere(f, isCellStore) {
-			st := in.(*ssa.Store)
-			if in.Parent() == f {
-				// initial upper bound: must not be reachable after a bound(...) call
-				reached := false
-				for _, cl := range instrsWhere(f, func(x ssa.Instruction) bool {
-					cc := callCommon(x)
-					if cc == nil {
-						return false
-					}
-					_, isClosure := cc.Value.(*ssa.MakeClosure)
-					return isClosure && x.Parent() == f
-				}) {
-					if reach([]Point{pointAfter(cl)}, nil, nil).visited[in] {
-						reached = true
-					}
-				}
-				if reached {
-					c.violation("C04-R5", kFold, instrPos(in), "ttl is re-assigned in "+name+" after candidates were folded: "+trunc(Desc(st.Val).String(), 100))
-				} else {
-					c.ok("C04-R5", kFold, instrPos(in), "initial upper bound "+trunc(Desc(st.Val).String(), 100))
-				}
+		var args []*Expr // the folded candidates
+		var ttlPat Pat   // the accumulator as it appears in the ttl > 0 test
+		if cell == nil {
+			// value form: the accumulator is an SSA value (inline ifs, min(), a
+			// lowering helper) — decided by the general fold
+			addCall, _ := ee.V.(*ssa.Call)
+			if addCall == nil || len(addCall.Call.Args) != 2 {
+				c.undecided("C04-R5", kFold, instrPos(expInstr), "cannot locate the ttl operand of now.Add")
 				continue
 			}
-			boundFn = in.Parent()
-			ve := Desc(st.Val)
-			if ug, tr := c.unguarded(in, c08LT(c08SameAs(ve), c04IsCellLoad(cell)), in.Parent()); ug {
-				c.violation("C04-R5", kFold, instrPos(in), "ttl is overwritten in "+fnKey(in.Parent())+" without the guard candidate < ttl (a floor or a raise); path "+tr)
-			} else {
-				c.ok("C04-R5", kFold, instrPos(in), "ttl = candidate only behind candidate < ttl in "+fnKey(in.Parent()))
+			tv := addCall.Call.Args[1]
+			for _, t := range c.c08Fold("C04-R5", kFold, "ttl", []c08Alt{{Val: tv, At: expInstr}}, c08FoldOpt{}) {
+				args = append(args, strip(t.E))
 			}
-		}
-		if boundFn == nil {
-			c.violation("C04-R5", kFold, f.Pos(), "no bound closure lowers the ttl")
-			continue
-		}
-		// candidate coverage
-		var args []*Expr
-		for _, cl := range c04ClosureCalls(boundFn) {
-			if cc := callCommon(cl); len(cc.Args) == 1 {
-				args = append(args, strip(Desc(cc.Args[0])))
+			ttlPat = c08SameAs(Desc(tv))
+		} else {
+			ttlPat = c04IsCellLoad(cell)
+			// cell form: a captured variable lowered by a closure
+			isCellStore := func(in ssa.Instruction) bool {
+				st, ok := in.(*ssa.Store)
+				return ok && c04CellOf(st.Addr) == cell
+			}
+			var boundFn *ssa.Function
+			for _, in := range instrsWhere(f, isCellStore) {
+				st := in.(*ssa.Store)
+				if in.Parent() == f {
+					// initial upper bound: must not be reachable after a bound(...) call
+					reached := false
+					for _, cl := range instrsWhere(f, func(x ssa.Instruction) bool {
+						cc := callCommon(x)
+						if cc == nil {
+							return false
+						}
+						_, isClosure := cc.Value.(*ssa.MakeClosure)
+						return isClosure && x.Parent() == f
+					}) {
+						if reach([]Point{pointAfter(cl)}, nil, nil).visited[in] {
+							reached = true
+						}
+					}
+					if reached {
+						c.violation("C04-R5", kFold, instrPos(in), "ttl is re-assigned in "+name+" after candidates were folded: "+trunc(Desc(st.Val).String(), 100))
+					} else {
+						c.ok("C04-R5", kFold, instrPos(in), "initial upper bound "+trunc(Desc(st.Val).String(), 100))
+					}
+					continue
+				}
+				boundFn = in.Parent()
+				ve := Desc(st.Val)
+				// ttl = min(ttl, candidate)
+				if se := strip(ve); se != nil && se.K == ECall && se.Method == "builtin.min" {
+					self := false
+					for _, a := range se.Args {
+						if c04IsCellLoad(cell)(a) {
+							self = true
+						}
+					}
+					if self {
+						c.ok("C04-R5", kFold, instrPos(in), "ttl = min(ttl, candidate) in "+fnKey(in.Parent()))
+						continue
+					}
+				}
+				if ug, tr := c.unguarded(in, c08LT(c08SameAs(ve), c04IsCellLoad(cell)), in.Parent()); ug {
+					c.violation("C04-R5", kFold, instrPos(in), "ttl is overwritten in "+fnKey(in.Parent())+" without the guard candidate < ttl (a floor or a raise); path "+tr)
+				} else {
+					c.ok("C04-R5", kFold, instrPos(in), "ttl = candidate only behind candidate < ttl in "+fnKey(in.Parent()))
+				}
+			}
+			if boundFn == nil {
+				c.violation("C04-R5", kFold, f.Pos(), "no bound closure lowers the ttl")
+				continue
+			}
+			for _, cl := range c04ClosureCalls(boundFn) {
+				if cc := callCommon(cl); len(cc.Args) == 1 {
+					args = append(args, strip(Desc(cc.Args[0])))
+				}
 			}
 		}
 		secs := func(fv *types.Var) Pat {
@@ -718,13 +821,13 @@ func runC04Writers(c *Ctx, isZeroCut Barrier) {
 		}
 		// non-positive ⇒ nothing stored
 		kPos := fmt.Sprintf("C04-R5|%s|stored only when ttl > 0", name)
-		if ug, tr := c.unguarded(expInstr, []Barrier{OnCmp("ttl>0", c04IsCellLoad(cell), token.GTR, IsConstInt(0), true)}, f); ug {
+		if ug, tr := c.unguarded(expInstr, []Barrier{OnCmp("ttl>0", ttlPat, token.GTR, IsConstInt(0), true)}, f); ug {
 			c.violation("C04-R5", kPos, instrPos(expInstr), "expiry produced without the ttl > 0 check; path "+tr)
 		} else {
 			c.ok("C04-R5", kPos, instrPos(expInstr), "expiry produced only behind ttl > 0")
 		}
 	}
-	c.Floor("C04-R5", 20)
+	c.Floor("C04-R5", 18)
 
 	// ------------------------------------------------------------------ R9
 	c.Doc("C04-R9", "MinCacheTTL <= 5s and MaxCacheTTL <= 24h are what cache.New gives NewPositiveCache; TTLManager.Calculate returns min only behind msgTTL<min, max only behind msgTTL>max, msgTTL only behind both comparisons failing")
@@ -855,7 +958,7 @@ func runC04Lineage(c *Ctx, isZeroCut Barrier) {
 				c.ok("C04-R6", key, instrPos(s.Instr), why)
 				continue
 			}
-			bars := []Barrier{CallBarrier(b.bound.Name(), b.bound), OnFalse(fo.Name()+" result", ResultOf(b.failIdx, fo))}
+			bars := []Barrier{c08CallsAlways(b.bound.Name(), b.bound), OnFalse(fo.Name()+" result", ResultOf(b.failIdx, fo))}
 			if b.wire {
 				bars = append(bars, abort, noLease, fallbackEdge)
 			}
@@ -985,11 +1088,11 @@ func runC04Lineage(c *Ctx, isZeroCut Barrier) {
 		if len(calls) == 0 {
 			c.violation("C04-R6", "C04-R6|boundRequestToEntryLifetime|BoundCutFor", f.Pos(), "no BoundCutFor call")
 		}
-		for _, in := range calls {
-			v := callArg(in, 1)
+		if len(calls) > 0 {
+			terms := c.c08Fold("C04-R6", "C04-R6|boundRequestToEntryLifetime|earlier of the two", "hardUntil", c08ArgSinks(calls, 1), c08FoldOpt{Skip: []Barrier{isZeroCut}})
 			hasHard, hasCut := false, false
 			var other []string
-			for _, l := range c08Leaves(v) {
+			for _, l := range c08TermExprs(terms) {
 				ll := strip(l)
 				switch {
 				case CallTo(timeAdd)(ll) && len(ll.Args) == 2 && FieldIs(fStored)(ll.Args[0]) && FieldIs(fTTL)(ll.Args[1]):
@@ -1002,14 +1105,9 @@ func runC04Lineage(c *Ctx, isZeroCut Barrier) {
 			}
 			key := "C04-R6|boundRequestToEntryLifetime|bound = min(stored+ttl, cutUntil)"
 			if hasHard && hasCut && len(other) == 0 {
-				c.ok("C04-R6", key, instrPos(in), "bound ∈ {stored.Add(ttl), cutUntil}")
+				c.ok("C04-R6", key, f.Pos(), "bound ∈ {stored.Add(ttl), cutUntil}")
 			} else {
-				c.violation("C04-R6", key, instrPos(in), fmt.Sprintf("bound does not fold both the TTL expiry and the delegation cut (ttl=%v cut=%v other=%v)", hasHard, hasCut, other))
-			}
-			if phi, ok := v.(*ssa.Phi); ok {
-				c.c08MinFoldPhi("C04-R6", "C04-R6|boundRequestToEntryLifetime|earlier of the two", phi, "hardUntil", isZeroCut)
-			} else {
-				c.undecided("C04-R6", "C04-R6|boundRequestToEntryLifetime|earlier of the two", instrPos(in), "bound is not a phi of alternatives")
+				c.violation("C04-R6", key, f.Pos(), fmt.Sprintf("bound does not fold both the TTL expiry and the delegation cut (ttl=%v cut=%v other=%v)", hasHard, hasCut, other))
 			}
 		}
 	}
@@ -1153,4 +1251,169 @@ func runC04Lineage(c *Ctx, isZeroCut Barrier) {
 		}
 	}
 	c.Floor("C04-R8", 10)
+}
+
+// ---------------------------------------------------------------------------
+// R10 (round 2): a reply that takes anything from a sub-query inherits the
+// sub-query's lifetime.
+
+func c04IsDNSMsgPtr(t types.Type) bool {
+	p, ok := t.Underlying().(*types.Pointer)
+	if !ok {
+		return false
+	}
+	n, ok := p.Elem().(*types.Named)
+	return ok && n.Obj().Name() == "Msg" && n.Obj().Pkg() != nil && n.Obj().Pkg().Path() == "github.com/miekg/dns"
+}
+
+// c04RootOf follows field/index addressing back to the pointer it starts from.
+func c04RootOf(v ssa.Value) ssa.Value {
+	for i := 0; i < 8; i++ {
+		switch x := v.(type) {
+		case *ssa.FieldAddr:
+			v = x.X
+		case *ssa.IndexAddr:
+			v = x.X
+		default:
+			return v
+		}
+	}
+	return v
+}
+
+func runC04SubQueryLineage(c *Ctx) {
+	const cp = "middleware/cache"
+	c.Doc("C04-R10", "after every Cache.internalExchange call: wherever the sub-response is transferred into the outer message (a call receiving both the sub-response and another *dns.Msg, or a store into a field of a *dns.Msg parameter), every path from the exchange through that transfer to a return crosses subQueryLineage.inherit — the composed reply, and what is re-cached from it, is bounded by the sub-query's lifetime")
+	ie := c.fobj("C04-R10", cp+".(*Cache).internalExchange")
+	inherit := c.fobj("C04-R10", cp+".(*subQueryLineage).inherit")
+	if ie == nil || inherit == nil {
+		return
+	}
+	sub := ResultOf(0, ie)
+	fromSub := func(v ssa.Value) bool {
+		for _, l := range Origins(Desc(v), nil) {
+			if sub(l) {
+				return true
+			}
+		}
+		return false
+	}
+	sites := c.CallSites(ie)
+	if len(sites) == 0 {
+		c.unresolved("C04-R10", "internalExchange", "no call site")
+	}
+	for _, s := range sites {
+		top := fnKey(TopLevel(s.Fn))
+		if s.Kind != "call" {
+			c.undecided("C04-R10", "C04-R10|"+top+"|internalExchange", instrPos(s.Instr), "internalExchange used other than by a plain call")
+			continue
+		}
+		// inherit itself, or a same-package helper handed the lineage that calls
+		// inherit on every path to its returns
+		inhBar := Barrier{Name: "call inherit", Instr: func(in ssa.Instruction) bool {
+			cl, ok := in.(*ssa.Call)
+			if !ok {
+				return false
+			}
+			if callIs(&cl.Call, inherit) {
+				return true
+			}
+			h := cl.Call.StaticCallee()
+			if h == nil || len(h.Blocks) == 0 || h.Pkg != s.Fn.Pkg {
+				return false
+			}
+			takes := false
+			for _, a := range cl.Call.Args {
+				if pt, ok := a.Type().Underlying().(*types.Pointer); ok {
+					if n, ok := pt.Elem().(*types.Named); ok && n.Obj().Name() == "subQueryLineage" {
+						takes = true
+					}
+				}
+			}
+			if !takes {
+				return false
+			}
+			r := reach(entryPoint(h), []Barrier{CallBarrier("inherit", inherit)}, nil)
+			for _, t := range r.order {
+				if isReturn(t) {
+					return false
+				}
+			}
+			return true
+		}}
+		// decisions that look at the sub-response
+		subCond := func(succ int) Barrier {
+			return Barrier{Name: "decision on the sub-response", Edge: func(cond *Expr) (bool, int) { return Contains(sub)(cond), succ }}
+		}
+		independent := reach([]Point{pointAfter(s.Instr)}, []Barrier{subCond(0), subCond(1)}, nil)
+		all := reach([]Point{pointAfter(s.Instr)}, nil, nil)
+		noInh := reach([]Point{pointAfter(s.Instr)}, []Barrier{inhBar}, nil)
+		isTransfer := func(in ssa.Instruction) (bool, string) {
+			if cc := callCommon(in); cc != nil {
+				hasSub, hasOuter := false, false
+				args := cc.Args
+				if cc.IsInvoke() {
+					args = append([]ssa.Value{cc.Value}, args...)
+				}
+				for _, a := range args {
+					if !c04IsDNSMsgPtr(a.Type()) {
+						continue
+					}
+					if fromSub(a) {
+						hasSub = true
+					} else {
+						hasOuter = true
+					}
+				}
+				if hasSub && hasOuter {
+					return true, "call " + calleeName(in) + "(sub-response, outer message)"
+				}
+				return false, ""
+			}
+			if st, ok := in.(*ssa.Store); ok {
+				root := c04RootOf(st.Addr)
+				if root == st.Addr {
+					return false, ""
+				}
+				if p, ok := root.(*ssa.Parameter); ok && c04IsDNSMsgPtr(p.Type()) {
+					// a store that happens whatever the sub-response says, with a value
+					// not taken from it, transfers nothing
+					if independent.visited[in] && !fromSub(st.Val) {
+						return false, ""
+					}
+					return true, "store into the outer message (" + trunc(Desc(st.Addr).String(), 60) + ")"
+				}
+			}
+			return false, ""
+		}
+		n := 0
+		for _, in := range all.order {
+			ok, what := isTransfer(in)
+			if !ok {
+				continue
+			}
+			n++
+			key := fmt.Sprintf("C04-R10|%s|%s", top, what)
+			if !noInh.visited[in] || inhBar.Instr(in) {
+				c.ok("C04-R10", key, instrPos(in), "lineage.inherit() precedes (or is part of) the transfer on every path from the exchange")
+				continue
+			}
+			r := reach([]Point{pointAfter(in)}, []Barrier{inhBar}, nil)
+			bad := false
+			for _, t := range r.order {
+				if isReturn(t) {
+					bad = true
+					c.violation("C04-R10", key, instrPos(t), fmt.Sprintf("%s: the sub-query's answer reaches the outer reply (%s at %s) and the function can return without lineage.inherit(): the composed reply is cached and served beyond the lifetime of the piece it was built from; path %s", top, what, c.P.pos(instrPos(in)), c.trail(r, t)))
+					break
+				}
+			}
+			if !bad {
+				c.ok("C04-R10", key, instrPos(in), "every return after this transfer crosses lineage.inherit()")
+			}
+		}
+		if n == 0 {
+			c.unresolved("C04-R10", top+"|transfers", "the sub-response is never transferred into an outer message (rule would pass vacuously)")
+		}
+	}
+	c.Floor("C04-R10", 4)
 }
